@@ -114,3 +114,13 @@ Example ex_limited_stdin :
   let '(fs', r) := extract [] ex_empty_fs (B "/s/p") (read_stdin (Some 12%N) arc) in
   r = WOk /\ get fs' [B "s"; B "p"; B "a"] = Some (File (B "0123" ++ [NL])).
 Proof. vm_compute. repeat split; reflexivity. Qed.
+
+(* a textual prefix is not containment: the sibling /s/p/tx of the directory /s/p/t has the
+   directory's path as a prefix of its own; the names that lead there are refused, and so
+   are names that come back into the directory after leaving it *)
+Example ex_prefix_sibling :
+  has_prefix (B "/s/p/t") (join (B "/s/p/t") (B "../tx")) = true /\
+  map (fun n => snd (write [] ex_fs ex_dir {| comment := []; files := [(B n, B "X")] |}))
+      ["../tx"; "../t.bak/f"; "a/../../tx"; "../t/f"; "../../p/t/f"]%string
+  = [WOutside; WOutside; WOutside; WOutside; WOutside].
+Proof. vm_compute. split; reflexivity. Qed.
